@@ -69,11 +69,11 @@ def make_report(rng, family=None):
 def _one(args):
     logging.disable(logging.CRITICAL)
     from . import serial_rec
-    plan = args          # list per statement: {"status": [(line, rep)], "ack": (line, rep) or None}
+    plan, mode = (args["plan"], args["mode"]) if isinstance(args, dict) else (args, "serial")
     stmts = [b"M114\n"] * len(plan)
     acks = [bytes(p["ack"][0]) if p["ack"] else b"ok\n" for p in plan]
     status = {k + 1: [bytes(x[0]) for x in p["status"]] for k, p in enumerate(plan) if p["status"]}
-    t = serial_rec.run_direct(stmts, acks, status=status, readings=True, do_disconnect=False, settle=0.005)
+    t = serial_rec.run_direct(stmts, acks, status=status, readings=True, do_disconnect=False, settle=0.005, mode=mode)
     ev = []
     k = 0
     for e in t["ev"]:
@@ -86,7 +86,7 @@ def _one(args):
                 rep = p["ack"][1]
                 ev.append({"k": "report", "toks": rep["toks"], "grbl": rep["grbl"], "ok": rep["ok"], "readings": _none()})
             ev.append({"k": "check", "toks": [], "grbl": False, "ok": False, "readings": e["readings"], "res": e["res"]})
-    return {"meta": {"lines": [[bytes(x[0]).decode() for x in p["status"]] + ([bytes(p["ack"][0]).decode()] if p["ack"] else ["ok"]) for p in plan]},
+    return {"meta": {"mode": mode, "lines": [[bytes(x[0]).decode() for x in p["status"]] + ([bytes(p["ack"][0]).decode()] if p["ack"] else ["ok"]) for p in plan]},
             "ev": ev}
 
 
@@ -132,7 +132,7 @@ class P(flow.Plan):
         plans = []
         for i in range(n):
             rng = random.Random(sd * 4099 + i)
-            plans.append(make_plan(rng, rng.randint(1, 5)))
+            plans.append({"plan": make_plan(rng, rng.randint(1, 5)), "mode": "socket" if i % 2 else "serial"})
         traces = flow.pool_map(_one, plans, 12)
         return traces, plans
 
